@@ -325,6 +325,8 @@ struct State {
     /// rolling hash over the delivery order (kind,src,dst) only
     order_fp: u64,
     consume_seq: u64,
+    /// in OnConsume mode: additionally snapshot every n-th step (0 = never)
+    snap_every: u64,
 }
 
 #[derive(Clone, Copy, Debug, PartialEq)]
@@ -573,7 +575,9 @@ impl Env for Inner {
                 SnapMode::Every => true,
                 SnapMode::OnDemand => st.hosts[host].snap_wanted,
                 SnapMode::OnConsume => {
-                    st.hosts[host].snap_wanted || st.hosts[host].consumed != st.hosts[host].snap_consumed
+                    st.hosts[host].snap_wanted
+                        || st.hosts[host].consumed != st.hosts[host].snap_consumed
+                        || (st.snap_every > 0 && st.hosts[host].steps % st.snap_every == 0)
                 }
             };
             (host, st.now, want)
@@ -784,6 +788,7 @@ impl Sim {
                 fingerprint: seed,
                 order_fp: 0,
                 consume_seq: 0,
+                snap_every: 0,
             }),
             observer: RefCell::new(None),
             in_observer: Cell::new(false),
@@ -800,6 +805,9 @@ impl Sim {
     }
     pub fn set_snap_mode(&self, m: SnapMode) {
         self.inner.st.borrow_mut().snap_mode = m;
+    }
+    pub fn set_snap_every(&self, n: u64) {
+        self.inner.st.borrow_mut().snap_every = n;
     }
     pub fn set_observer(&self, f: Box<dyn FnMut(HostId, u64, &Snapshot)>) {
         *self.inner.observer.borrow_mut() = Some(f);
